@@ -50,6 +50,9 @@ def _build(name, dt):
             models._fill(p, k)
         return m.to(dt).eval()
     seq = {
+        "big_linear": lambda: [nn.Linear(768, 6)],
+        "big_lin_lin": lambda: [nn.Linear(512, 512), nn.Linear(512, 8)],
+        "big_conv": lambda: [nn.Conv2d(8, 16, 3, padding=1)],
         "linear": lambda: [nn.Linear(8, 6)],
         "conv": lambda: [nn.Conv2d(2, 3, 2)],
         "layernorm": lambda: [nn.LayerNorm(8)],
@@ -64,12 +67,14 @@ def _build(name, dt):
 
 
 def _batch(kind, name, dt, aname, idx):
-    shape = (2, 2, 3, 3) if name == "conv" else (3, 8)
+    shape = BIG_SHAPES.get(name) or ((2, 2, 3, 3) if name == "conv" else (3, 8))
     n = 1
     for d in shape:
         n *= d
     i = torch.arange(n, dtype=torch.float64).reshape(shape)
     base = torch.cos(i * 0.37 + idx * 1.3) * (0.6 + (i % 4) * 0.1)
+    if name in BIG_SHAPES:
+        base = base * (0.5 + i / n)  # the loudest samples come last (a block-wise reduction that drops its tail under-estimates)
     if kind == "unit":
         v = base
     elif kind == "x10":
@@ -87,8 +92,17 @@ def _batch(kind, name, dt, aname, idx):
     return v.to(dt)
 
 
+# size ladder: batches of 2^16 .. 2^20+ activations with non power-of-two row counts
+BIG_SHAPES = {"big_linear": (301, 768), "big_lin_lin": (2050, 512), "big_conv": (3, 8, 67, 67)}
+
+
 def plan(tier, seed):
     tasks = []
+    for name in BIG_SHAPES:
+        for aname in num.Q8:
+            for mom in ((0.5,) if tier == "quick" else (0.0, 0.5, 0.9)):
+                for dt in (("float32",) if tier == "quick" else ("float32", "float16")):
+                    tasks.append({"model": name, "a": aname, "momentum": mom, "streamline": False, "dt": dt, "tier": tier, "kinds": ["unit", "x10", "x0.1"], "L": 2})
     for name in MODELS:
         for aname in num.Q8:
             for mom in MOMENTA:
@@ -141,7 +155,10 @@ def _run_history(task, seq, split, out, only=False):
                     x = _batch(seq[b], name, dt, aname, b)
                     captured.clear()
                     active_before = {n: m.activation_qtype is not None for n, m in qmods}
+                    x_before = x.clone()
                     model(x)
+                    if not num.same_bits(x, x_before):
+                        out["violations"].append(violation(PID, case, dict(fields, sub="batch_modified"), f"batch_modified: the calibration batch #{b} ({seq[b]}, shape {tuple(x.shape)}) handed to the model was modified in place by the forward pass"))
                     # reference update for every module that was active during this batch
                     for n, m in qmods:
                         r = ref[n]
@@ -232,10 +249,10 @@ def _run_history(task, seq, split, out, only=False):
             out["violations"].append(violation(PID, case, dict(fields, sub="raised"), f"raised: calibrating the last module alone raised {type(e).__name__}: {str(e)[:160]}"))
 
 
-def _histories(tier, dtname="float32"):
-    L = 3 if (tier == "quick" or dtname != "float32") else 4
+def _histories(tier, dtname="float32", kinds=None, L=None):
+    L = L or (3 if (tier == "quick" or dtname != "float32") else 4)
     for n in range(1, L + 1):
-        for seq in itertools.product(KINDS, repeat=n):
+        for seq in itertools.product(kinds or KINDS, repeat=n):
             yield seq, None
             for split in range(1, n):
                 yield seq, split
@@ -244,7 +261,7 @@ def _histories(tier, dtname="float32"):
 def _run(task):
     out = {"evals": 0, "nontrivial": 0, "points": 0, "calls": 0, "violations": [], "samples": [], "counters": {}}
     only = task.get("only")
-    for seq, split in _histories(task["tier"], task["dt"]):
+    for seq, split in _histories(task["tier"], task["dt"], task.get("kinds"), task.get("L")):
         if only and only != [list(seq), split]:
             continue
         out["evals"] += 1
